@@ -7,7 +7,7 @@ hprop.install(globals(), hprop.HistoryProperty(
     prop="C03",
     monitors=lambda: [C03Requests()],
     profile=profile(nv=(1, 6), n_requests=(8, 40), timeouts=[60, 120, 300, 600], socs=[0.003, 0.02, 0.08, 0.3, 0.8, 0.97],
-                    builtin=[False, True], fleets=[0, 0, 0, 2], steps=[5, 15, 15, 30, 30, 45, 60, 60, 90, 120, 300], block_graphs=[False, True],
+                    builtin=[False, True], fleets=[0, 0, 0, 2], steps=[5, 15, 15, 30, 30, 45, 60, 60, 90, 120, 300], block_graphs=[False, True], h3_res=[15, 15, 15, 11, 10, 9],
                     nets=["hav", "gen", "gen", "denver"]),
     nontrivial=lambda f: {"pickup", "cancel"} <= f and bool(f & {"two_vehicles_to_one_request", "instruction_on_carrying_vehicle", "expired_while_vehicle_en_route"}),
     rule=("stateful histories over generated worlds with dense request streams (bursts, co-located, origin = destination, 60-600 s "
